@@ -12,15 +12,22 @@ import (
 	"log"
 	"os"
 	"path/filepath"
+	"runtime"
 	"runtime/debug"
 	"runtime/metrics"
 	"sort"
+	"strings"
 	"testing"
 
 	"verif/sim"
 )
 
 var props = map[string]sim.PropSpec{}
+
+// noShrink lets the sensitivity experiments (deliberately broken scratch
+// copies, many violation kinds at once) skip minimisation: LOGSIM_NOSHRINK=1.
+// Registered checks never set it.
+var noShrink = os.Getenv("LOGSIM_NOSHRINK") != ""
 
 func TestVerif(t *testing.T) { sim.Main(t, "logsim", props) }
 
@@ -80,26 +87,59 @@ func sortedInts(m map[int]struct{}) []int {
 }
 
 var allocSample = []metrics.Sample{{Name: "/gc/heap/allocs:bytes"}}
-var lastAllocBytes uint64
 
-// releaseIfHuge returns freed address space to the OS when the SUT allocated a
-// huge buffer since the previous call (a flipped length field makes the
-// decoders allocate up to 4 GiB that are never touched). Without this the Go
-// heap would reuse and zero the span on the next such allocation, which costs
-// seconds and gigabytes of resident memory. Purely a cost measure: it does not
-// influence what the SUT returns.
-func releaseIfHuge() bool {
+func allocatedBytes() uint64 {
 	metrics.Read(allocSample)
-	cur := allocSample[0].Value.Uint64()
-	d := cur - lastAllocBytes
-	lastAllocBytes = cur
-	if d > 8<<20 {
+	return allocSample[0].Value.Uint64()
+}
+
+// gcPacer runs the collector by hand during a bit-flip enumeration. A flipped
+// length field makes the decoders allocate up to 4 GiB that are never touched;
+// with the automatic collector every such allocation starts a cycle, the
+// allocating goroutine is drafted into mark assists, and the freed span is
+// zeroed on reuse (seconds and gigabytes of resident memory per flip). With the
+// collector off each allocation is a fresh, untouched mapping; after the flip
+// the memory is handed back to the OS in one step. Purely a cost measure: it
+// does not influence what the SUT returns.
+type gcPacer struct {
+	last, sinceGC uint64
+}
+
+func startGCPacer() (*gcPacer, func()) {
+	old := debug.SetGCPercent(-1)
+	p := &gcPacer{last: allocatedBytes()}
+	return p, func() {
+		debug.SetGCPercent(old)
+	}
+}
+
+// after is called once per flip; it reports whether the flip made the SUT
+// allocate more than 8 MiB.
+func (p *gcPacer) after() bool {
+	cur := allocatedBytes()
+	d := cur - p.last
+	p.last = cur
+	p.sinceGC += d
+	switch {
+	case d > 8<<20:
 		debug.FreeOSMemory()
-		metrics.Read(allocSample)
-		lastAllocBytes = allocSample[0].Value.Uint64()
+		p.sinceGC = 0
+		p.last = allocatedBytes()
 		return true
+	case p.sinceGC > 24<<20:
+		runtime.GC()
+		p.sinceGC = 0
+		p.last = allocatedBytes()
 	}
 	return false
+}
+
+// errS renders an error for the trace without process-specific directory names.
+func errS(err error) string {
+	if err == nil {
+		return "<nil>"
+	}
+	return strings.ReplaceAll(err.Error(), sim.Scratch(), "$S")
 }
 
 func guard(fn func()) (perr error) {
